@@ -23,6 +23,7 @@ func runC11(c *Ctx) {
 	c.Rule("C11-R5", "no map-order leaks in console/JSON output or log lines", 40)
 	defer c11WorkerCount(c)
 	defer c11PackageSlicesNotAppended(c, "C11-R3")
+	defer c11NoRememberedAnswers(c, "C11-R3")
 
 	cmd := p.Pkg("cmd/pint")
 	if cmd == nil {
@@ -1388,4 +1389,53 @@ func c11UnsupportedTables(c *Ctx, R string) {
 		usedBy[r] = k
 	}
 	c.Check(len(keys) >= 3, R, "unsupporedAPIs:paths enumerated", is.Decl.Pos(), itoa(len(keys)), "fewer than 3 API paths")
+}
+
+// c11NoRememberedAnswers: the objects every worker shares (servers, failover groups, checks, the config)
+// remember nothing about earlier questions in atomics: a field of a sync/atomic type that is stored, added
+// to or swapped makes what a later check sees depend on which checks ran before it ("the upstream that
+// answered last is asked first"). Race-free, and therefore invisible to the lock rules. Atomic counters
+// that are local to one function (the scan counters) are not fields and stay out of this.
+func c11NoRememberedAnswers(c *Ctx, R string) {
+	n, bad := 0, ""
+	for _, pkg := range c.P.ModPkgs() {
+		rel := relPkg(pkg.PkgPath)
+		if !strings.HasPrefix(rel, "internal/") {
+			continue
+		}
+		info := pkg.TypesInfo
+		for _, f := range pkg.Syntax {
+			if c.P.IsTestFile(f.Pos()) {
+				continue
+			}
+			ast.Inspect(f, func(nd ast.Node) bool {
+				call, ok := nd.(*ast.CallExpr)
+				if !ok {
+					return true
+				}
+				n++
+				sel, ok := call.Fun.(*ast.SelectorExpr)
+				if !ok {
+					return true
+				}
+				switch sel.Sel.Name {
+				case "Store", "Add", "Swap", "CompareAndSwap", "And", "Or":
+				default:
+					return true
+				}
+				fn, _ := info.Uses[sel.Sel].(*types.Func)
+				if fn == nil || fn.Pkg() == nil || fn.Pkg().Path() != "sync/atomic" {
+					return true
+				}
+				if fs, isField := ast.Unparen(sel.X).(*ast.SelectorExpr); isField {
+					if v, isVar := info.Uses[fs.Sel].(*types.Var); isVar && v.IsField() {
+						bad = exprStr(sel.X) + "." + sel.Sel.Name + " at " + c.P.Pos(call.Pos())
+					}
+				}
+				return true
+			})
+		}
+	}
+	c.Check(bad == "" && n > 1000, R, "shared objects remember nothing in atomics", token.NoPos, itoa(n)+" calls inspected",
+		"an atomic field of a shared object is updated ("+bad+"): what a later question sees depends on the questions asked before it, so the reported text depends on the order in which the workers ran the checks")
 }
